@@ -297,3 +297,24 @@ def r16_8(ctx):
         ctx.require(ok, "write_config:unknown-version", f"negotiated version {v} (handler v{latest}): write_config {p.terminal} {p.value!r}; the default "
                     "configuration must be written as for the newest known version", func=f, trace=p.trace(12))
     ctx.ok(1)
+
+
+@rule("R16.9", ["C16", "C09"], "T-WMW", floor=1)
+def r16_9(ctx):
+    """The default-configuration tables are fixed once their module is imported: no function of the package mutates
+    DEFAULT_CONFIG, the per-family default lists it refers to, or the schema tables - neither directly nor through a local
+    alias of a table or of one of its lists (``entries = DEFAULT_CONFIG[v]; entries += [...]`` extends the shared list in
+    place).  State left in these tables by one configuration write would reach every later write in the process (another
+    radio, a reconnect with changed settings), where it acts as an override the user never gave."""
+    from .util import shared_table_mutations
+
+    repo = ctx.repo
+    env = repo.module("bellows.ezsp.config")
+    ctx.anchor(env is not None and "DEFAULT_CONFIG" in env, "bellows.ezsp.config.DEFAULT_CONFIG")
+    tables = {n for n, v in env.items() if n.isupper() and isinstance(v, (list, dict, set)) and not n.startswith("__")}
+    ctx.anchor("DEFAULT_CONFIG" in tables, "DEFAULT_CONFIG is a table")
+    hits = shared_table_mutations(repo, tables)
+    for g, n, what in hits:
+        ctx.violation(f"default-table-mutated:{g.short if g.cls is not None else g.name}", f"{g.short if g.cls is not None else g.mod + ':' + g.name} {what} "
+                      f"(line {n.lineno}): a shared default table is modified at run time", func=g, node=n)
+    ctx.ok(len(tables), "tables")
